@@ -13,17 +13,22 @@ pub enum CKind {
     OF,
     BD,
     BF,
+    /// container of weak pointers, default strategy
+    WD,
 }
 
 impl CKind {
     pub fn nullable(self) -> bool {
-        matches!(self, CKind::OD | CKind::OF)
+        matches!(self, CKind::OD | CKind::OF | CKind::WD)
     }
     pub fn pointee(self) -> u8 {
         match self {
             CKind::BD | CKind::BF => 2,
             _ => 1,
         }
+    }
+    pub fn weak(self) -> bool {
+        matches!(self, CKind::WD)
     }
     pub fn fallback_only(self) -> bool {
         matches!(self, CKind::AF | CKind::OF | CKind::BF)
@@ -36,6 +41,8 @@ pub enum Init {
     Null,
     /// The same object as container `c` was initialised with (one value in several containers).
     SameAs(u8),
+    /// A weak pointer to the object container `c` was initialised with.
+    WeakOf(u8),
 }
 
 #[derive(Clone, Debug, Serialize, Deserialize)]
@@ -191,6 +198,8 @@ pub struct GenParams {
     pub shared_values: bool,
     pub same_value_again: bool,
     pub main_ops: bool,
+    /// Add (sometimes) a container of weak pointers to the value of another container.
+    pub weak_containers: bool,
 }
 
 impl Default for GenParams {
@@ -226,6 +235,7 @@ impl Default for GenParams {
             shared_values: true,
             same_value_again: true,
             main_ops: false,
+            weak_containers: false,
         }
     }
 }
@@ -407,6 +417,16 @@ pub fn gen_program(rng: &mut Rng, p: &GenParams) -> Program {
         }
         conts.push(ContSpec { kind, init });
     }
+    if p.weak_containers && rng.below(3) == 0 {
+        // an ArcSwapWeak next to the strong container of the same allocation
+        if let Some(j) = conts.iter().position(|c| c.kind.pointee() == 1 && !c.kind.weak() && c.init == Init::New) {
+            conts.push(ContSpec {
+                kind: CKind::WD,
+                init: Init::WeakOf(j as u8),
+            });
+        }
+    }
+    let n_conts = conts.len();
     let n_workers = p.min_threads + rng.below((p.max_threads - p.min_threads + 1) as u64) as usize;
     let n_children = if p.w_spawn > 0 { 1 + rng.below(2) as usize } else { 0 };
     let n_threads = 1 + n_workers + n_children;
